@@ -16,13 +16,15 @@ CONSTANTS CFGS,      \* configurations one of which is chosen by Init
           MAXRESTART,\* restarts per behaviour
           UPDENDS,   \* EndBlock values a params update may set on a feeder
           MAXUPD,    \* params updates per behaviour
+          MAXSTAKE,  \* delegations to one validator's operator per behaviour (partial validator-set changes)
           ADDS,      \* feeders a params update may add / resume: records [tok, start, iv]; the round id is the valid one
           SECONDBAD, \* TRUE: the second message of a two-message tx always carries a stale base block (lead L7 probes)
           FAILBUDGET \* rejected txs per behaviour (>= MAXOPS: unlimited)
 
-VARIABLES S, T, G, hist, last, nfail, nrestart, ntx, bp, nupd
+VARIABLES S, T, G, hist, last, nfail, nrestart, ntx, bp, nupd, stk
 \* bp: <<price of token t1 at the last BeginBlock on S, on T>> (x/operator turns it into voting power at an epoch end)
-vars == <<S, T, G, hist, last, nfail, nrestart, ntx, bp, nupd>>
+\* stk: extra whole units of the staking asset delegated to each validator's operator (env: x/assets, x/delegation)
+vars == <<S, T, G, hist, last, nfail, nrestart, ntx, bp, nupd, stk>>
 
 \* latest stored price of the staking asset's token (t1); 1 if there is none
 LatestT1(X) == LET l == X.prices["t1"].list IN IF l = <<>> \/ ~l[Len(l)].p.some THEN 1 ELSE l[Len(l)].p.v
@@ -31,7 +33,9 @@ LatestT1(X) == LET l == X.prices["t1"].list IN IF l = <<>> \/ ~l[Len(l)].p.some 
 \* updates are emitted only if something changed.  (Prediction used for generation; traces log the real ones.)
 PredictVU(X, price) ==
   IF X.c.ep = 0 \/ X.h = 1 \/ (X.h - 1) % X.c.ep # 0 THEN <<>>
-  ELSE LET new == [v \in DOMAIN X.c.pw |-> X.c.pw[v] * price] IN IF new = X.pw THEN <<>> ELSE new
+  ELSE LET new == [v \in DOMAIN X.c.pw |-> (X.c.pw[v] + stk[v]) * price]
+           ch  == {v \in DOMAIN new : new[v] # X.dv[v]}          \* the ABCI diff lists only the validators that changed
+       IN [v \in ch |-> new[v]]
 
 Init ==
   /\ \E c \in CFGS : S = InitState(c) /\ hist = <<[ev |-> "Init", a |-> [cfg |-> c]]>>
@@ -39,6 +43,7 @@ Init ==
   /\ G = [subs |-> {}]
   /\ last = [ev |-> "Init", okS |-> TRUE, okT |-> TRUE, fin |-> {}, carryOK |-> TRUE, halt |-> FALSE]
   /\ nupd = 0
+  /\ stk = [v \in DOMAIN S.c.pw |-> 0]
   /\ nfail = 0 /\ nrestart = 0 /\ ntx = 0
   /\ bp = <<LatestT1(S), LatestT1(S)>>
 
@@ -76,7 +81,7 @@ DoTx(msgs) ==
                     fin |-> UNION {{[f |-> f, k |-> RoundIdx(S.c, f, S.h), p |-> e[3]] :
                                       f \in {x \in FeedersOfTok(S.c, e[1]) : \E i \in DOMAIN msgs : msgs[i].f = x}} : e \in NewEntries(S, rs.st)},
                     carryOK |-> TRUE, halt |-> FALSE]
-        /\ ntx' = ntx + 1 /\ UNCHANGED <<nrestart, bp, nupd>>
+        /\ ntx' = ntx + 1 /\ UNCHANGED <<nrestart, bp, nupd, stk>>
 
 CarryOK(pre, post) ==
   \A t \in TOKENS :
@@ -97,12 +102,12 @@ DoEnd(restart) ==
          halted == rs.err = "PANIC" \/ rt.err = "PANIC"     \* BeginBlock of the restarted node panics: the node is down
      IN /\ S' = rs.st /\ T' = rt.st /\ bp' = <<LatestT1(rs.st), LatestT1(rt.st)>>
         /\ hist' = Append(hist, [ev |-> "EndBlock", a |-> [restart |-> restart],
-                                  n |-> (IF NewEntries(S, rs.st) # {} THEN {"carry"} ELSE {}) \cup (IF rs.st.pw # S.pw THEN {"vu"} ELSE {}) \cup
+                                  n |-> (IF NewEntries(S, rs.st) # {} THEN {"carry"} ELSE {}) \cup (IF rs.st.pw # S.pw THEN {"vu"} ELSE {}) \cup (IF rs.st.dv # S.dv /\ \E v \in DOMAIN S.dv : rs.st.dv[v] = S.dv[v] THEN {"pvu"} ELSE {}) \cup
                                         (IF restart /\ Mem(rs.st) # Mem(rt.st) THEN {"memdiff"} ELSE {}) \cup
                                         (IF Stored(rs.st) # Stored(rt.st) THEN {"div"} ELSE {})])
         /\ last' = [ev |-> "EndBlock", okS |-> TRUE, okT |-> TRUE, fin |-> {}, carryOK |-> halted \/ CarryOK(S, rs.st), halt |-> halted]
   /\ nrestart' = IF restart THEN nrestart + 1 ELSE nrestart
-  /\ ntx' = 0 /\ UNCHANGED <<G, nfail, nupd>>
+  /\ ntx' = 0 /\ UNCHANGED <<G, nfail, nupd, stk>>
 
 \* MsgUpdateParams (governance): set the EndBlock of a feeder
 DoUpd(f, e) ==
@@ -115,7 +120,16 @@ DoUpd(f, e) ==
         /\ S' = rs.st /\ T' = rt.st
         /\ hist' = Append(hist, [ev |-> "Upd", a |-> [f |-> f, end |-> e], n |-> IF rs.err = "" THEN {"upd"} ELSE {}])
         /\ last' = [ev |-> "Upd", okS |-> rs.err = "", okT |-> rt.err = "", fin |-> {}, carryOK |-> TRUE, halt |-> FALSE]
-  /\ nupd' = nupd + 1 /\ UNCHANGED <<G, nrestart, ntx, bp>>
+  /\ nupd' = nupd + 1 /\ UNCHANGED <<G, nrestart, ntx, bp, stk>>
+
+\* a delegation to the operator of ONE validator: at the next dogfood epoch end only that validator's power changes
+DoStake(v) ==
+  /\ Len(hist) < MAXOPS /\ S.h <= MAXH /\ ~last.halt /\ S.c.ep > 0
+  /\ FoldFunctionOnSet(LAMBDA a, b : a + b, 0, stk, DOMAIN stk) < MAXSTAKE
+  /\ stk' = [stk EXCEPT ![v] = @ + 1]
+  /\ hist' = Append(hist, [ev |-> "Stake", a |-> [v |-> v, x |-> 1], n |-> {"stake"}])
+  /\ last' = [ev |-> "Stake", okS |-> TRUE, okT |-> TRUE, fin |-> {}, carryOK |-> TRUE, halt |-> FALSE]
+  /\ UNCHANGED <<S, T, G, nfail, nrestart, ntx, bp, nupd>>
 
 \* MsgUpdateParams (governance): add the first feeder of a token / re-plan a feeder that has not started / resume a token
 \* whose feeder has ended (with the round id that continues the token's numbering)
@@ -130,7 +144,7 @@ DoAdd(x) ==
         /\ S' = rs.st /\ T' = rt.st
         /\ hist' = Append(hist, [ev |-> "Add", a |-> a, n |-> IF rs.err = "" THEN {"add"} ELSE {}])
         /\ last' = [ev |-> "Add", okS |-> rs.err = "", okT |-> rt.err = "", fin |-> {}, carryOK |-> TRUE, halt |-> FALSE]
-  /\ nupd' = nupd + 1 /\ UNCHANGED <<G, nrestart, ntx, bp>>
+  /\ nupd' = nupd + 1 /\ UNCHANGED <<G, nrestart, ntx, bp, stk>>
 
 \* message alphabet, relative to the state of S
 Bases(f) == (IF f \in DOMAIN S.rounds THEN {S.rounds[f].base} ELSE {0}) \cup
@@ -156,6 +170,7 @@ Next ==
   \/ \E r \in BOOLEAN : DoEnd(r)
   \/ \E f \in FEEDERS, e \in UPDENDS : DoUpd(f, e)
   \/ \E x \in ADDS : DoAdd(x)
+  \/ \E v \in DOMAIN S.c.pw : DoStake(v)
 
 Spec == Init /\ [][Next]_vars
 
@@ -166,7 +181,7 @@ Spec == Init /\ [][Next]_vars
 \* The exhaustive configurations use a MAXOPS that cannot bind (every event is bounded by a state component:
 \* MAXH blocks, MAXTX txs per block, MAXUPD updates), then the length adds nothing and is left out.
 MaxEvents == 1 + MAXH * (MAXTX + 1) + MAXUPD
-View == <<S, T, G, last, nfail, nrestart, ntx, bp, nupd, IF MAXOPS <= MaxEvents THEN Len(hist) ELSE 0>>
+View == <<S, T, G, last, nfail, nrestart, ntx, bp, nupd, stk, IF MAXOPS <= MaxEvents THEN Len(hist) ELSE 0>>
 
 \* ----- invariants: C12 on the node S -----
 HH == S.h - 1
